@@ -475,3 +475,74 @@ pub fn catch<R>(f: impl FnOnce() -> R) -> Result<R, String> {
 pub fn quiet_panics() {
     std::panic::set_hook(Box::new(|_| {}));
 }
+
+// ---------------------------------------------------------------- enumeration helpers
+
+pub struct Acc {
+    pub evals: u64,
+    pub nontrivial: u64,
+    pub first: Option<(Fail, &'static str, J)>,
+}
+
+impl Acc {
+    pub fn new() -> Acc {
+        Acc { evals: 0, nontrivial: 0, first: None }
+    }
+    pub fn add(&mut self, nt: bool, f: Option<Fail>, kind: &'static str, case: impl FnOnce() -> J) {
+        self.evals += 1;
+        if nt {
+            self.nontrivial += 1;
+        }
+        if let Some(f) = f {
+            if self.first.is_none() {
+                self.first = Some((f, kind, case()));
+            }
+        }
+    }
+}
+
+pub fn merge(ctx: &Ctx, accs: Vec<Acc>) {
+    for a in accs {
+        ctx.bulk_n(a.evals, a.nontrivial);
+        if let Some((f, kind, case)) = a.first {
+            if !ctx.tolerate(&f) {
+                ctx.violation(f, kind, case);
+            }
+        }
+    }
+}
+
+/// run `f(shard, nshards, &mut Acc)` on 16 threads
+pub fn par(ctx: &Ctx, f: impl Fn(usize, usize, &mut Acc) + Sync) {
+    let n = 16;
+    let out = Mutex::new(Vec::new());
+    std::thread::scope(|s| {
+        for i in 0..n {
+            let f = &f;
+            let out = &out;
+            s.spawn(move || {
+                let mut a = Acc::new();
+                f(i, n, &mut a);
+                out.lock().unwrap().push(a);
+            });
+        }
+    });
+    merge(ctx, out.into_inner().unwrap());
+}
+
+pub struct Lcg(pub u64);
+impl Lcg {
+    pub fn next(&mut self) -> u64 {
+        self.0 = pt::mix(self.0, 0x1234567);
+        self.0
+    }
+    pub fn bytes(&mut self, n: usize) -> Vec<u8> {
+        let mut v = Vec::with_capacity(n + 8);
+        while v.len() < n {
+            v.extend_from_slice(&self.next().to_le_bytes());
+        }
+        v.truncate(n);
+        v
+    }
+}
+
